@@ -13,6 +13,10 @@ pub enum GK {
     /// Z phase, in half-turns num/den
     Rz(i64, i64),
     Rx(i64, i64),
+    /// Z / X rotation whose angle the file states as a plain number plus a multiple of π:
+    /// (a in 1/1000 rad, num, den) means a/1000 + π·num/den.  Never exact.
+    RzMix(i64, i64, i64),
+    RxMix(i64, i64, i64),
     X,
     Z,
     S,
@@ -57,8 +61,8 @@ impl GK {
     }
     pub fn name(&self) -> &'static str {
         match self {
-            GK::Rz(..) => "rz",
-            GK::Rx(..) => "rx",
+            GK::Rz(..) | GK::RzMix(..) => "rz",
+            GK::Rx(..) | GK::RxMix(..) => "rx",
             GK::X => "x",
             GK::Z => "z",
             GK::S => "s",
@@ -78,6 +82,11 @@ impl GK {
     pub fn phase(&self) -> Option<(i64, i64)> {
         match *self {
             GK::Rz(n, d) | GK::Rx(n, d) => Some((n, d)),
+            GK::RzMix(a, n, d) | GK::RxMix(a, n, d) => {
+                // half-turns to 1e-12
+                let h = (a as f64 / 1000.0) / std::f64::consts::PI + n as f64 / d as f64;
+                Some(((h * 1e12).round() as i64, 1_000_000_000_000))
+            }
             GK::Z | GK::X => Some((1, 1)),
             GK::S => Some((1, 2)),
             GK::Sdg => Some((-1, 2)),
@@ -185,6 +194,9 @@ impl HCirc {
                 if let GK::Rz(n, d) | GK::Rx(n, d) = g.k {
                     s += &format!("({})", phase_expr_styled(n, d, (v >> 8) % 6));
                 }
+                if let GK::RzMix(a, n, d) | GK::RxMix(a, n, d) = g.k {
+                    s += &format!("({})", mixed_expr(a, n, d, (v >> 8) % 6));
+                }
                 s += if (v >> 16) % 5 == 1 { "   " } else { " " };
                 let bare = (v >> 20) % 3 == 1 && g.k.arity() == 1;
                 let qs: Vec<String> = g.qs.iter().map(|&q| self.qname_styled(q, bare)).collect();
@@ -230,6 +242,34 @@ fn phase_expr_styled(n: i64, d: i64, variant: u64) -> String {
             format!("({n}/{d})*pi")
         }
         _ => phase_expr(n, d),
+    }
+}
+
+/// Spellings of the angle a/1000 + π·n/d (a != 0).
+fn mixed_expr(a: i64, n: i64, d: i64, variant: u64) -> String {
+    let dec = |a: i64| format!("{}", a as f64 / 1000.0);
+    if n == 0 {
+        return match variant {
+            2 => format!("({})", dec(a)),
+            _ => dec(a),
+        };
+    }
+    let pe = phase_expr(n, d);
+    let signed = |x: &str| if x.starts_with('-') { x.to_string() } else { format!("+{x}") };
+    match variant {
+        1 => format!("{pe}{}", signed(&dec(a))),
+        2 => format!("({})+({pe})", dec(a)),
+        3 => {
+            // a ± n/d*pi
+            let sg = if n < 0 { '-' } else { '+' };
+            if d == 1 {
+                format!("{}{sg}{}*pi", dec(a), n.abs())
+            } else {
+                format!("{}{sg}{}/{}*pi", dec(a), n.abs(), d)
+            }
+        }
+        4 => format!("{pe} {} ", signed(&dec(a))),
+        _ => format!("{}{}", dec(a), signed(&pe)),
     }
 }
 
@@ -375,6 +415,16 @@ pub fn apply_gate<A: Amp>(st: &mut Vec<A>, g: &HGate) -> Option<()> {
     match g.k {
         GK::H => apply_h(st, q[0]),
         GK::Rz(n, d) => apply_zphase(st, q[0], n, d)?,
+        GK::RzMix(..) => {
+            let (n, d) = g.k.phase()?;
+            apply_zphase(st, q[0], n, d)?
+        }
+        GK::RxMix(..) => {
+            let (n, d) = g.k.phase()?;
+            apply_h(st, q[0]);
+            apply_zphase(st, q[0], n, d)?;
+            apply_h(st, q[0]);
+        }
         GK::Z => apply_zphase(st, q[0], 1, 1)?,
         GK::S => apply_zphase(st, q[0], 1, 2)?,
         GK::Sdg => apply_zphase(st, q[0], -1, 2)?,
